@@ -66,6 +66,8 @@ def directed_cases(seed: int, tier: str) -> typing.List[dict]:
     for first in [""] + [a + b for a in SMALL for b in SMALL]:
         # "" = the texts shorter than two characters; every other block owns one two-character prefix
         out.append({"label": "exhaustive-%r" % first, "mode": "exhaustive", "first": first, "max_len": max_len})
+    for k, (f, w, pl) in enumerate([(0, 2, [["limit", 1]]), (1, 9, [["limit", 1]]), (0, 3, [["trim"], ["limit", 0]]), (1, 5, [["limit", 2], ["trim"]]), (0, 11, [["limit", 1]])]):
+        out.append({"label": "directed-retry-%d" % k, "mode": "retry", "dsdl_seed": [seed, PROP, "directed", 0], "fault": {"file": f, "write": w}, "procs": pl, "templates": "blanky"})
     out.append({"label": "directed-copy-header", "mode": "copy", "texts": ["a  \r\nb\r\nlast", "a \nb\n", "x", "", "\n", "a\r\n", "l1\nl2  ", "\r\n\r\n\r\n\r\nq"]})
     for li, (lang, tpl, flags) in enumerate([("c", None, {}), ("c", "crlf", {}), ("py", None, {}), ("cpp", "blanky", {"pp_max_empty": 1}), ("py", "crlf", {}), ("c", "blanky", {}), ("py", "blanky", {"pp_trim": True}), ("cpp", "blanky", {"pp_max_empty": 2, "pp_trim": True}), ("c", "blanky", {"pp_max_empty": 3})]):
         out.append({"label": "directed-system-%s-%s-%d" % (lang, tpl, li), "mode": "system", "dsdl_seed": [seed, PROP, "directed", li % 2], "lang": lang, "templates": tpl, "flags": flags})
@@ -73,6 +75,8 @@ def directed_cases(seed: int, tier: str) -> typing.List[dict]:
 
 
 def gen_case(seed: int, index: int, tier: str) -> dict:
+    if index % 16 == 5:
+        return {"mode": "retry", "dsdl_seed": [seed, PROP, "dsdl", index], "ops_seed": [seed, PROP, "retry", index], "tier": tier}
     if index % 8 == 7:
         return {"mode": "system", "dsdl_seed": [seed, PROP, "dsdl", index], "ops_seed": [seed, PROP, "sys", index], "tier": tier}
     if index % 8 == 6:
@@ -343,6 +347,16 @@ def run_case(case: dict, ctx: dict) -> dict:
         executed = smp.get("executed", case) if smp else case
         if ev > 1:
             keys.add(hashlib.sha256(repr(smp).encode()).hexdigest()[:12])
+    elif mode == "retry":
+        v, ev, st, smp = _retry_case(case, ctx, bump)
+        evaluations += ev
+        states |= st
+        sample = smp
+        for x in v:
+            record(x, {})
+        executed = smp.get("executed", case) if smp else case
+        if ev > 1:
+            keys.add(hashlib.sha256(repr({k: val for k, val in (smp or {}).items() if k != "executed"}).encode()).hexdigest()[:12])
     else:
         raise proc.HarnessError("unknown mode %r" % mode)
 
@@ -356,7 +370,7 @@ def run_case(case: dict, ctx: dict) -> dict:
         "states": sorted(states),
         "counters": counters,
         "sim_time_s": 0.0,
-        "sample": sample if mode != "system" else {k: v for k, v in (sample or {}).items() if k != "executed"},
+        "sample": sample if mode not in ("system", "retry") else {k: v for k, v in (sample or {}).items() if k != "executed"},
         "digest": hashlib.sha256(repr((sorted(states), evaluations, sorted(seen_sigs))).encode()).hexdigest()[:16],
     }
 
@@ -489,6 +503,74 @@ def _system_case(case: dict, ctx: dict, bump: typing.Callable) -> typing.Tuple[l
                 )
                 break
     return v, ev, states, {"opts": opts, "chunk_seeds": seeds, "executed": executed}
+
+
+def _retry_case(case: dict, ctx: dict, bump: typing.Callable) -> typing.Tuple[list, int, set, dict]:
+    """
+    A fault in the middle of a file, then a retry on the SAME generator object (C++ target: no language processors, so
+    a generator without processors yields the raw text): every file of the retry must equal the whole-text reference.
+    """
+    import pathlib
+
+    import pydsdl
+    from nunavut import build_namespace_tree
+    from nunavut.jinja import DSDLCodeGenerator
+    from nunavut.lang import LanguageContextBuilder
+    from simkit.seams import Seams
+
+    sandbox = os.path.join(ctx["scratch"], "disk")
+    os.makedirs(sandbox)
+    world = nnvg.World(sandbox)
+    if "dsdl" in case:
+        roots, files = case["dsdl"]["roots"], case["dsdl"]["files"]
+        if dsdlgen.validate(files, roots, os.path.join(ctx["scratch"], "val")) is not None:
+            return [], 0, set(), {}
+    else:
+        ds = dsdlgen.generate_valid(tuple(case["dsdl_seed"]), os.path.join(ctx["scratch"], "val"))
+        roots, files = ds.roots, ds.files
+    dsdlgen.materialize_files(files, roots, world.in_dir)
+    r = Rng(*case["ops_seed"]) if "ops_seed" in case else Rng(PROP, "directed", case.get("label", ""))
+    procs = case.get("procs") or r.choice(PROC_LISTS[2:])
+    fault = case.get("fault") or {"file": r.below(3), "write": r.weighted([(r.below(12), 3), (r.below(60), 1)])}
+    tpl = case.get("templates") or r.choice(["blanky", "blanky", "crlf"])
+    root = case.get("root") or sorted(roots)[0]
+    usertpl.plant(world.tpl_dir, tpl, usertpl.SETS[tpl])
+    executed = {"label": case.get("label"), "hash_seed": case.get("hash_seed", 0), "mode": "retry", "dsdl": {"roots": list(roots), "files": dict(files)}, "procs": procs, "fault": fault, "templates": tpl, "root": root}
+    seams = Seams({"sandbox": sandbox, "clock": dict(nnvg.FROZEN_CLOCK), "sort_enum": True})
+    seams.install()
+    lctx = LanguageContextBuilder(include_experimental_languages=True).set_target_language("cpp").create()
+    types = pydsdl.read_namespace(os.path.join(world.in_dir, root), [os.path.join(world.in_dir, x) for x in roots if x != root], allow_unregulated_fixed_port_id=True)
+
+    def gen(out: str, pps: typing.Optional[list]) -> typing.Any:
+        ns = build_namespace_tree(types, os.path.join(world.in_dir, root), out, lctx)
+        return ns, DSDLCodeGenerator(ns, templates_dir=pathlib.Path(os.path.join(world.tpl_dir, tpl)), post_processors=pps)
+
+    ns_raw, g_raw = gen(os.path.join(sandbox, "raw"), [])
+    g_raw.generate_all(False, True, True, False)
+    raw = {os.path.relpath(str(p), os.path.join(sandbox, "raw")): open(str(p), "r", encoding="utf-8", newline="").read() for _, p in ns_raw.get_all_datatypes()}
+    ns_a, g_a = gen(os.path.join(sandbox, "out"), make_procs(procs))
+    seams.fault = {"kind": "write_oserror", "errno": "ENOSPC", "file": seams.wopen_count + fault["file"], "write": fault["write"], "partial": 50}
+    seams.fault_fired = None
+    aborted = False
+    try:
+        g_a.generate_all(False, True, True, False)
+    except OSError:
+        aborted = True
+    seams.fault = None
+    if aborted and seams.fault_fired:
+        bump("probes", "file_aborted_by_write_fault")
+    g_a.generate_all(False, True, True, False)  # the retry, same generator object and processor objects
+    seams.enabled = False
+    v = []
+    for rel, text in sorted(raw.items()):
+        got = open(os.path.join(sandbox, "out", rel), "r", encoding="utf-8", newline="").read()
+        want = reference(text, procs)
+        if got != want:
+            i = next((k for k in range(min(len(got), len(want))) if got[k] != want[k]), min(len(got), len(want)))
+            v.append({"signature": "%s:retry:file-differs-from-whole-text-reference-after-aborted-file:%s" % (PROP, "+".join(p[0] for p in procs)), "detail": {"path": rel, "procs": procs, "fault": fault, "aborted": aborted, "at": i, "got": got[max(0, i - 20) : i + 20], "want": want[max(0, i - 20) : i + 20]}})
+            break
+    bump("ops", "retry-cases")
+    return v, 3, {"retry|%s|%s" % (tpl, procs_name(procs))}, {"procs": procs, "fault": fault, "templates": tpl, "aborted": aborted, "executed": executed}
 
 
 def _read_tree(out: str) -> typing.Dict[str, bytes]:
